@@ -15,6 +15,7 @@
                  every per-pump contribution to the spontaneous Raman ASE is gated by pump frequency > channel frequency,
                  under which the phonon factor E/(E-1) and the Raman coefficient are non-negative (R3.raman-ase).
  Rm memo          : every memoisation construct in the functions behind this property is keyed by everything it reads.
+ Rp presence      : optional numeric fields are tested with `is None` / membership, never by truthiness (0 is a value).
 """
 import ast
 
@@ -305,4 +306,9 @@ from ..memo import rule_for as _memo_rule
 
 RULES_MEMO = ('Rm.memo', _memo_rule('C02', 'an element would apply noise computed for another spectrum or configuration'))
 
-RULES = [('R3.raman-ase', r3b_raman_ase), ('R1.effects', r1_effects), ('R2.identities', r2_identities), ('R3.sign', r3_sign), RULES_MEMO]
+
+from ..presence import rule_for as _presence_rule
+
+RULES_PRESENCE = ('Rp.presence', _presence_rule('C02', 'a legal zero would be read as missing'))
+
+RULES = [('R3.raman-ase', r3b_raman_ase), ('R1.effects', r1_effects), ('R2.identities', r2_identities), ('R3.sign', r3_sign), RULES_MEMO, RULES_PRESENCE]
